@@ -241,7 +241,16 @@ def gotran_to_myokit(ode: ODE, time_component="engine", time_unit="s") -> myokit
         return unit.replace("**", "^")
 
     # First we need to add all variables to the model
-    global_var_map = {sp.Symbol("time"): sp.Symbol(f"{time_component}.time")}
+    time_symbol = sp.Symbol(f"{time_component}.time")
+    global_var_map = {sp.Symbol("time"): time_symbol, sp.Symbol("t"): time_symbol, ode.t: time_symbol}
+
+    def map_symbol(atom, qname: str) -> None:
+        # Expressions of a model loaded from an .ode file use the atoms' own
+        # symbols (which carry assumptions); expressions imported from Myokit
+        # use plain symbols of the same name. Map both.
+        global_var_map[sp.Symbol(atom.name)] = sp.Symbol(qname)
+        global_var_map[atom.symbol] = sp.Symbol(qname)
+
     for component in ode.components:
         if component.name == time_component:
             comp = model[time_component]
@@ -252,18 +261,18 @@ def gotran_to_myokit(ode: ODE, time_component="engine", time_unit="s") -> myokit
             state = state_derivative.state
             var = comp.add_variable(state.name)
             var.set_unit(to_myokit_unit(state.unit_str))
-            global_var_map[sp.Symbol(state.name)] = sp.Symbol(var.qname())
+            map_symbol(state, var.qname())
 
         for parameter in component.parameters:
             var = comp.add_variable(parameter.name)
             var.set_unit(to_myokit_unit(parameter.unit_str))
             var.set_rhs(parameter.value)
-            global_var_map[sp.Symbol(parameter.name)] = sp.Symbol(var.qname())
+            map_symbol(parameter, var.qname())
 
         for intermediate in component.intermediates:
             var = comp.add_variable(intermediate.name)
             var.set_unit(to_myokit_unit(intermediate.unit_str))
-            global_var_map[sp.Symbol(intermediate.name)] = sp.Symbol(var.qname())
+            map_symbol(intermediate, var.qname())
 
     sympy_reader = myokit.formats.sympy.SymPyExpressionReader(model=model)
     # Then we can add expressions
